@@ -94,6 +94,7 @@ pub struct Interp<'c, K: KeyT, V: ValT> {
     leak_ok: bool,
     trace: bool,
     c13: bool,
+    transcript: bool,
     pub c13_max_ratio: u64,
     pub basic_ops: u64,
 }
@@ -159,6 +160,7 @@ where
             leak_ok: false,
             trace: case.h("trace") != 0,
             c13: case.h("c13") != 0,
+            transcript: case.h("transcript") != 0,
             c13_max_ratio: 0,
             basic_ops: 0,
         }
@@ -1481,6 +1483,21 @@ where
             if let Err(b) = self.c13_check() {
                 return Err(self.to_violation(step, b));
             }
+        }
+        if self.transcript {
+            let mut h: u64 = 0xcbf29ce484222325;
+            let _q = Quiet::new();
+            for s in &self.slots {
+                let mut c: Vec<(u32, u32, u64)> = s.map.iter().map(|(k, v)| (k.id(), k.gen(), v.get())).collect();
+                c.sort_unstable();
+                h = (h ^ s.map.len() as u64).wrapping_mul(0x100000001b3);
+                for (a, b, v) in c {
+                    for x in [a as u64, b as u64, v] {
+                        h = (h ^ x).wrapping_mul(0x100000001b3);
+                    }
+                }
+            }
+            self.out.transcript.push(h);
         }
         let l0 = self.labels;
         self.labels = 0;
